@@ -7,7 +7,7 @@ from props.c01 import _rand_grid
 from props.c11 import qc_nested, rand_field, _flat
 
 ID = "C10"
-GEN_UNITS = ["GridT", "FlowAlg", "FlowFieldsT"]
+GEN_UNITS = ["GridT", "FlowAlg", "FlowFieldsT", "PointsetNorm"]
 PROPS_FILE = "Props/C10.v"
 PROPS_MOD = "Props.C10"
 COQ_TARGETS = ["Props/C10.vo"]
@@ -28,7 +28,7 @@ ASSUMPTIONS = [
 AXN = ["GRID", "CUBE", "CUBE_CORNERS", "WORLD"]
 HEADER = ["From Coq Require Import ZArith QArith Qcanon List String Bool.",
           "From DV Require Import Base.Field Base.LinAlg Base.QcInst Base.QcCmp Model.Enums Model.Homog Model.Grid Model.Sampler Model.SamplerQc "
-          "Model.Flow Model.FlowQc Model.FlowRepr Gen.GridT.",
+          "Model.Flow Model.FlowQc Model.FlowRepr Gen.GridT Gen.PointsetNorm.",
           "Import ListNotations.",
           "Definition tol : Q := 2 # 100000.", "Definition tolS : Q := 3 # 10000.",
           "Definition mkg (n s c : list Qc) (d : list (list Qc)) : @gridf QcF :=",
@@ -110,6 +110,10 @@ def gen_cases(ctx):
 
 def correspondence(ctx):
     cases = gen_cases(ctx)
+    for fn in ("normalize_grid", "denormalize_grid", "normalize_flow", "denormalize_flow"):      # generated per-axis helpers
+        for ac in (True, False):
+            cases.append({"kind": "norm", "D": 1, "a": fn, "fn": fn, "ac": ac, "n": ctx.rng.randint(2, 9),
+                          "x": [ctx.rng.randint(-40, 40) / 8 for _ in range(4)]})
     payload = [{k: v for k, v in c.items() if k != "ngrids_model"} for c in cases]
     res = vlib.run_impl("c10_impl", {"fn": "model_cases", "cases": payload})
     failures, dist = [], {}
@@ -123,6 +127,13 @@ def correspondence(ctx):
             failures.append({"case": slim, "impl": r, "why": "implementation raised where the model is defined"})
             continue
         D = c["D"]
+        if c["kind"] == "norm":
+            acb = "true" if c["ac"] else "false"
+            m = coq_list([f"gen_{c['fn']} (K:=QcF) {acb} (q {c['n']} 1) {qc(float(x))}" for x in c["x"]])
+            lines.append(f"Definition c{i} : bool := vcloser tol {m} {coq_list([qc(float(v)) for v in r['val']])}.")
+            names.append((i, f"c{i}", "plain"))
+            evals += 1
+            continue
         st = r["stored"]
         if c["kind"] in ("axes", "axes1"):
             if r["axes"] != c["b"].lower():
@@ -249,8 +260,9 @@ MANIFEST_ENTRY = {
             "Gen/GridT.v and Gen/FlowFields.v (glue of FlowFields.axes / exp / warp_image / sample traced on symbolic tensors, proved to "
             "make the model's choices) regenerated by tracing; hand model of data/flow.py run in Coq against FlowFields / FlowField axes (16 pairs, shared "
             "/ per-item grids), exp, warp_image, sample's vector re-scaling.",
-    "note": "Known finding: "
-            "normalize_grid / denormalize_grid(align_corners=False) are half a sample off the grid's GRID<->CUBE point map. FlowFields.sample as a whole (data resampling at the mapped points, zeros or border padding, + vector re-scaling) "
+    "note": "normalize_grid / denormalize_grid / normalize_flow / denormalize_flow are traced per axis (Gen/PointsetNorm.v) and proved "
+            "equal to the grid's GRID<->CUBE(_CORNERS) point / vector maps for both flags and mutually inverse (the half-sample defect of "
+            "align_corners=False is repaired in /repo 97344fc; its search key stays as a regression check). FlowFields.sample as a whole (data resampling at the mapped points, zeros or border padding, + vector re-scaling) "
             "is proved to commute with every representation change (C10_sample_commutes_with_axes_2d/3d: transform_vectors is a "
             "constant matrix per item -- proved for the 16 generated closed forms -- and multilinear sampling is linear per channel); the "
             "generated closed forms of transform_vectors are proved equal to the specified maps through index space "
